@@ -20,6 +20,8 @@ def scope(field, exp, got, info):
     if info.get("panic") or kind(got) == "panic":
         return True
     if field == "out":
+        if kind(got) == "waiting" and kind(exp) != "waiting":
+            return True      # the runner keeps answering "waiting": it did not remain usable
         return (kind(exp) == "error") != (kind(got) == "error")
     return field == "load"
 
@@ -27,9 +29,9 @@ def scope(field, exp, got, info):
 SPEC = dict(
     sig="fault", scope=scope,
     sc_list=[
-        dict(family="faults", n=(200, 5000), mc=dict(max_calls=11, after_end=1), mc_thorough=dict(max_calls=13), invariants=INV),
+        dict(family="faults", n=(200, 5000), mc=dict(max_calls=11, max_polls=1, after_end=1), mc_thorough=dict(max_calls=13), invariants=INV),
         # one call of a random built-in per program: argument classes x statement kinds x nesting positions
-        dict(family="domain", n=(700, 100000), mc=dict(max_calls=8, after_end=1), invariants=["StackDiscipline"]),
+        dict(family="domain", n=(900, 100000), mc=dict(max_calls=8, after_end=1), invariants=["StackDiscipline"]),
     ],
     cs=[dict(family="faults", n=(120, 2000), paths=(4, 6), calls=45, layouts=True,
              label="YarnTrace: random walks of bigger faulty programs")],
